@@ -59,6 +59,7 @@ def setup_qasm(env):
         pass
     E.reactor = env.clock
     F.reactor = env.clock
+    env.clock_modules += [E, F]          # every new network gets a fresh clock (net_sync.new_clock)
     env.tap = []                     # native calls: dicts
     if not hasattr(env, "orig_call_method"):
         env.orig_call_method = E.call_method
